@@ -102,8 +102,10 @@ def generate(rng, tier, shard, nshards):
         # in its own far-off unit (independent factors: the property holds "whatever the magnitudes of the two measured vectors")
         ext = gens.logu(rng, 1e-12, 1e12) if i % 7 == 3 else 1.0
         ext_m = ext * (gens.logu(rng, 1e-12, 1e12) if i % 7 == 5 else 1.0)
-        yield Case("all", "general", q=gens.general_position(rng), dip=draw_dip(rng, i), sa=ext * gens.logu(rng, 1e-2, 1e2),
-                   sm=ext_m * gens.logu(rng, 1e-2, 1e3), seed=int(rng.integers(2**31)))
+        sa_, sm_ = ext * gens.logu(rng, 1e-2, 1e2), ext_m * gens.logu(rng, 1e-2, 1e3)
+        if i % 7 == 1:      # readings in g / a "normalised" field with a scale error of parts per billion to parts per hundred thousand: magnitudes almost, not exactly, 1
+            sa_, sm_ = 1.0 + float(rng.choice([-1, 1])) * gens.logu(rng, 1e-10, 1e-5), (1.0 + float(rng.choice([-1, 1])) * gens.logu(rng, 1e-10, 1e-5)) if rng.random() < 0.7 else sm_
+        yield Case("all", "general", q=gens.general_position(rng), dip=draw_dip(rng, i), sa=sa_, sm=sm_, seed=int(rng.integers(2**31)))
     for i in range(gens.budget(240, tier, nshards)):
         yield Case("free", "generic", q=gens.unit(rng), dip=draw_dip(rng, i), sa=gens.logu(rng, 1e-2, 1e2),
                    sm=gens.logu(rng, 1e-2, 1e3), seed=int(rng.integers(2**31)))
